@@ -1,4 +1,5 @@
 import Irismod.Props.C05
+import Irismod.Proofs.FarmMonitor
 open Irismod Irismod.Sdk Irismod.Farm Irismod.Spec Irismod.Spec.C05 Irismod.Props.C05 Irismod.Proofs.Farm
 #print axioms stakes_genesis
 #print axioms stakes_step
@@ -41,3 +42,8 @@ open Irismod Irismod.Sdk Irismod.Farm Irismod.Spec Irismod.Spec.C05 Irismod.Prop
   decide (cpoolOf s7 "btc" = 4500 * decUnit) && decide (s7.bank.balOf distrAcc "btc" = 4500) && decide (s7.bank.balOf distrAcc "eth" = 0) &&
   (moduleAccountDiffs s7).isEmpty && (backedDiffs s7).isEmpty && (lockDiffs w3Genesis s7).isEmpty && tablesB s7 &&
   sameObserved s7 s9 && sameCp s7 s9}"
+-- soundness of the monitor's state clauses with respect to the model (partial: see Proofs/FarmMonitor.lean)
+#print axioms Irismod.Proofs.FarmMonitor.monitor_state_clauses_sound_partial
+#print axioms Irismod.Proofs.FarmMonitor.check_prefix
+#print axioms Irismod.Proofs.FarmMonitor.rejected_unchanged
+#print axioms Irismod.Proofs.FarmMonitor.tablesB_of
